@@ -408,6 +408,43 @@ def sortedInsert (x : String × Bound) : List (String × Bound) → List (String
   | [] => [x]
   | y :: ys => if lexLt (keyOf x.1) (keyOf y.1) then x :: y :: ys else y :: sortedInsert x ys
 
+/-- First loop of the field selection for target `t`: the field carrying a marker for `t`; a second one is refused. -/
+def intoLoop (t : String) : Nat → List (Field × List (String × Option String)) → Option (Nat × Field × Option String) →
+    Res (Option (Nat × Field × Option String))
+  | _, [], acc => .ok acc
+  | i, (f, marks) :: rest, acc =>
+    match marks.find? fun p => p.1 == t with
+    | some p =>
+      match acc with
+      | some _ => .diag .multipleIntoFields
+      | none => intoLoop t (i + 1) rest (some (i, f, p.2))
+    | none => intoLoop t (i + 1) rest acc
+
+/-- Second loop ("search the same type"): the unique field whose normalised type is `t`; several → none. -/
+def intoSame (t : String) : Nat → List (Field × List (String × Option String)) → Option (Nat × Field × Option String) →
+    Option (Nat × Field × Option String)
+  | _, [], acc => acc
+  | i, (f, _) :: rest, acc =>
+    if f.hashTy == t then
+      match acc with
+      | some _ => none
+      | none => intoSame t (i + 1) rest (some (i, f, none))
+    else intoSame t (i + 1) rest acc
+
+/-- The field designated for target `t` among the fields of one struct / variant, with the marker's method. -/
+def intoSelect (t : String) (fas : List (Field × List (String × Option String))) : Res (Nat × Field × Option String) :=
+  match fas with
+  | [(f, marks)] => .ok (0, f, ((marks.find? fun p => p.1 == t).map Prod.snd).getD none)
+  | _ =>
+    match intoLoop t 0 fas none with
+    | .diag e => .diag e
+    | .panic s => .panic s
+    | .ok (some r) => .ok r
+    | .ok none =>
+      match intoSame t 0 fas none with
+      | some r => .ok r
+      | none => .diag .noIntoField
+
 def intoHandler (c : Ctx) (ms : List TraitMeta) : Res (List Item) := do
   let d := c.d
   match ms with
@@ -430,43 +467,12 @@ def intoHandler (c : Ctx) (ms : List TraitMeta) : Res (List Item) := do
         pure (v, fas)) d.variants
     -- targets are emitted in the order of the (ordered) target map
     let ordered := targets.foldl (fun acc t => sortedInsert t acc) []
-    let select (t : String) (fas : List (Field × List (String × Option String))) : Res (Nat × Field × Option String) :=
-      match fas with
-      | [(f, marks)] => .ok (0, f, ((marks.find? fun p => p.1 == t).map Prod.snd).getD none)
-      | _ =>
-        let rec loop : Nat → List (Field × List (String × Option String)) → Option (Nat × Field × Option String) →
-            Res (Option (Nat × Field × Option String))
-          | _, [], acc => .ok acc
-          | i, (f, marks) :: rest, acc =>
-            match marks.find? fun p => p.1 == t with
-            | some p =>
-              match acc with
-              | some _ => .diag .multipleIntoFields
-              | none => loop (i + 1) rest (some (i, f, p.2))
-            | none => loop (i + 1) rest acc
-        let rec same : Nat → List (Field × List (String × Option String)) → Option (Nat × Field × Option String) →
-            Option (Nat × Field × Option String)
-          | _, [], acc => acc
-          | i, (f, _) :: rest, acc =>
-            if f.hashTy == t then
-              match acc with
-              | some _ => none
-              | none => same (i + 1) rest (some (i, f, none))
-            else same (i + 1) rest acc
-        match loop 0 fas none with
-        | .diag e => .diag e
-        | .panic s => .panic s
-        | .ok (some r) => .ok r
-        | .ok none =>
-          match same 0 fas none with
-          | some r => .ok r
-          | none => .diag .noIntoField
     mapRes (fun (tb : String × Bound) => do
         let t := tb.1
         let chosen ← mapRes (fun (v, fas) => do
             if d.kind == .enum && v.shape == .unit then Res.diag .unitVariant
             else do
-              let (i, f, meth) ← select t fas
+              let (i, f, meth) ← intoSelect t fas
               pure (v, i, f, meth)) vs
         if chosen.isEmpty then Res.diag .noIntoField
         else
